@@ -4,7 +4,8 @@
    universally quantified functions constrained by explicit premises. *)
 From JsonSyntax Require Import Base.Prelude Base.Value Base.Float64 Spec.NumSpelling Spec.SerdeTyped
   Model.Serde Proofs.SerdeProofs Proofs.SerdeShape Proofs.SerdeViaJson
-  Spec.EcmaNumber Proofs.Float64Proofs Proofs.NumberProofs Proofs.NearestDouble Proofs.Float32Proofs Proofs.Float32Total.
+  Spec.EcmaNumber Proofs.Float64Proofs Proofs.NumberProofs Proofs.NearestDouble Proofs.Float32Proofs Proofs.Float32Total
+  Proofs.NumberTotal Proofs.FloatGenMinimal.
 From Coq Require Import Reals SpecFloat.
 From Flocq Require Import Core BinarySingleNaN.
 Local Open Scope Z_scope.
@@ -46,6 +47,32 @@ Theorem C16_f32_printer_round_trips : forall b,
   f32_wf b = true -> f32_finite b = true ->
   sgl (fmt_f32_ref b) = sf32_of_bits b /\ sf32_bits (sgl (fmt_f32_ref b)) = b.
 Proof. exact fmt_f32_ref_round_trip_bits. Qed.
+
+(* The digits of the binary32 reference printer, ECMAScript-style: (n, k, s) is a representation
+   of the binary32 (m, e) (k digits, s * 10^(n-k) rounds to it under round-to-nearest-even
+   binary32), k <= 9, NO decimal with fewer significant digits (whatever its exponent) rounds to
+   it, and among the k-digit representations s * 10^(n-k) is closest to the value; of two equally
+   close ones the one with the larger digit string s is taken (lexical's rule, not ECMAScript's
+   "even": e.g. 385121.625 is spelt 385121.63). *)
+Theorem C16_f32_shortest : forall m e n k s,
+  valid_binary 24 128 (S754_finite false m e) = true ->
+  nks_g (chk32 (S754_finite false m e)) m e = Some (n, k, s) ->
+  f32_repr m e n k s /\ k <= 9 /\
+  (forall n' k' s', f32_repr m e n' k' s' -> k <= k') /\
+  (forall n' s', f32_repr m e n' k s' ->
+     (Rabs (IZR s * bpow radix10 (n - k) - dbl_R m e) <=
+      Rabs (IZR s' * bpow radix10 (n' - k) - dbl_R m e))%R /\
+     (Rabs (IZR s * bpow radix10 (n - k) - dbl_R m e) =
+      Rabs (IZR s' * bpow radix10 (n' - k) - dbl_R m e) ->
+      (s', n') = (s, n) \/ s' < s)).
+Proof. exact nks_g_chk32_shortest. Qed.
+
+(* and those are the digits `fmt_f32_ref` lays out, for every bit pattern of a finite nonzero f32 *)
+Theorem C16_f32_printer_digits : forall b sg m e,
+  f32_wf b = true -> sf32_of_bits b = S754_finite sg m e ->
+  exists n k s, nks_g (chk32 (S754_finite false m e)) m e = Some (n, k, s) /\
+    fmt_f32_ref b = (if sg then [0x2D%N] else nil) ++ layout_lex false n k s.
+Proof. exact fmt_f32_ref_digits. Qed.
 
 (* why reading through f64 first was a defect (repaired by 5885c93): double rounding *)
 Example C16_double_rounding_differs :
@@ -135,4 +162,6 @@ Print Assumptions C16_reference_instances_sample.
 Print Assumptions C16_nearest_single_correct.
 Print Assumptions C16_sgl_spelling.
 Print Assumptions C16_f32_printer_round_trips.
+Print Assumptions C16_f32_shortest.
+Print Assumptions C16_f32_printer_digits.
 Print Assumptions C16_double_rounding_differs.
